@@ -16,7 +16,8 @@ from ..gen import c_sess
 
 ID = "C11"
 LEVEL = "exploration"
-RULE = ("case = error-free history of 1..8 inputs mixing fun/enum/struct/method/test definitions (incl. methods on built-in "
+RULE = ("case = error-free history of 1..8 inputs mixing fun/enum/struct/method/test definitions (incl. inputs whose last expression - an accumulating loop - is followed by definitions or wrapped in a "
+        "top-level block / if, observed by a later input; methods on built-in "
         "types and methods submitted before the enum/struct they are attached to), top-level lets, assignments, "
         "+=, printing statements and expressions; the last input is an expression, a loop, an if or a match (with printed "
         "output); 30% of the histories send all inputs but the last with the path of a (virtual) file. distinct key = (number of "
@@ -199,7 +200,65 @@ class G:
             return prefix + "if", "if %s < %s { println(%s) }" % (self.int_expr(1), self.int_expr(1), self.str_expr())
         return prefix + "match", "match Some(%s) { Some(vq) => println(string_repr(vq)) None => println(\"none\") }" % self.int_expr(1)
 
+    def tail_def(self):
+        """A definition that can follow an expression inside the same input (never used later, unique name)."""
+        r = self.r
+        c = r.random()
+        if c < 0.4:
+            return "fun %s() { %d }" % (self.name("ft"), r.randint(0, 9))
+        if c < 0.6:
+            return "struct %s { q: Int }" % self.name("St")
+        if c < 0.8:
+            t = self.name("Et")
+            return "enum %s { %s_X }" % (t, t)
+        return "test %s { assert(%d == %d) }" % (self.name("tt"), 3, 3)
+
+    def accum(self):
+        """One input whose last *expression* has side effects (a loop accumulating into a top-level variable and
+        printing) and is followed by definitions in the same input, or is wrapped in a top-level block / if."""
+        r = self.r
+        it = "vj%d" % self.n
+        if not self.ints or r.random() < 0.4:
+            acc = self.name("acc")
+            pre = "let %s = 0\n" % acc
+        else:
+            acc, pre = r.choice(self.ints), ""
+        items = ", ".join(self.int_expr(1) for _ in range(r.randint(2, 4)))
+        c = r.random()
+        if c < 0.4:
+            loop = "for %s in [%s] { %s += %s println(string_repr(%s)) }" % (it, items, acc, it, acc)
+        elif c < 0.6:
+            w = self.name("wc")
+            pre += "let %s = 0\n" % w
+            loop = "while %s < %d { %s += 1 %s += %s println(string_repr(%s)) }" % (w, r.randint(2, 4), w, acc, self.int_expr(1), acc)
+        elif c < 0.8:
+            loop = "for %s in [%s] { if %s < %s { %s += %s } else { %s -= 1 } }" % (it, items, it, self.int_expr(1), acc, it, acc)
+        else:
+            loop = "%s = %s + %s\nprintln(string_repr(%s))" % (acc, acc, self.int_expr(1), acc)
+        shape = r.random()
+        if shape < 0.45:
+            src = pre + loop + "\n" + "\n".join(self.tail_def() for _ in range(r.randint(1, 3)))
+            kind = "effects-then-defs"
+        elif shape < 0.65:
+            src = pre + "{ " + loop.replace("\n", " ") + " }"
+            kind = "effects-in-block"
+        elif shape < 0.8:
+            src = pre + "if %s < (%s + 1) { %s }" % (acc, acc, loop.replace("\n", " "))
+            kind = "effects-in-if"
+        elif shape < 0.9:
+            src = pre + "{ " + loop.replace("\n", " ") + " }\n" + self.tail_def()
+            kind = "effects-in-block-then-defs"
+        else:
+            src = self.tail_def() + "\n" + pre + loop + "\n" + self.tail_def()
+            kind = "defs-effects-defs"
+        if acc not in self.ints:
+            self.ints.append(acc)
+        self.observe = acc
+        return kind, src
+
     def last(self):
+        if getattr(self, "observe", None) and self.r.random() < 0.6:
+            return "last-int", "(%s + %s)" % (self.observe, self.int_expr(2))
         c = self.r.random()
         if c < 0.35:
             return "last-int", self.int_expr(3)
@@ -232,6 +291,8 @@ class G:
             c = r.random()
             if c < 0.08:
                 out.append(self.builtin_method())
+            elif c < 0.2:
+                out.append(self.accum())
             elif c < 0.3:
                 out.append(self.definition())
             elif c < 0.5:
@@ -256,6 +317,11 @@ FIXED = [
     [("method-before-enum", "method me0(this: L0, o: Int): Int { o + 1 }"), ("enum-late", "enum L0 { L0_A, L0_B(Int) }"), ("last-int", "L0_A.me0(2)")],
     [("method-before-struct", "method ms0(this: K0, o: Int): Int { this.a + o }"), ("struct-late", "struct K0 { a: Int }"), ("last-int", "K0{ a: 1 }.ms0(2)")],
     [("method-builtin", "method mi0(this: Int, o: Int): Int { this + o }"), ("last-int", "3.mi0(4)")],
+    [("let", "let total0 = 0"), ("effects-then-defs", "for x0 in [1, 2, 3] { total0 += x0 }\nfun later0() { 1 }"), ("last-int", "total0 + later0()")],
+    [("let", "let total1 = 0"), ("effects-in-block", "{ for x1 in [1, 2, 3] { total1 += x1 println(string_repr(total1)) } }"), ("last-int", "total1")],
+    [("let", "let total2 = 0"), ("effects-in-if", "if True { for x2 in [1, 2, 3] { total2 += x2 } }"), ("last-int", "total2")],
+    [("effects-then-defs", "let total3 = 0\nlet w3 = 0\nwhile w3 < 3 { w3 += 1 total3 += w3 }\nstruct S3 { q: Int }\ntest t3 { assert(1 == 1) }"), ("last-int", "total3 + w3")],
+    [("let", "let total4 = 0"), ("effects-then-defs", "total4 = total4 + 5\nprintln(string_repr(total4))\nenum E4 { E4_X }"), ("last-int", "total4")],
     [("fun", "fun g1() { println(\"g1\") 3 }"), ("print", "println(\"a\")"), ("last-int", "g1() + g1()")],
 ]
 
